@@ -1,4 +1,61 @@
 import FormulaicVerif.Model.Parser
-/-! # C15 (work in progress) -/
+import FormulaicVerif.Proofs.C15
+/-! # C15 — Lexing is whitespace-insensitive, quote-faithful and normalises Python code
+
+Property theorems only (helpers: `Proofs/C15.lean`), about `Model.tokenize`/`Model.lexStep`, the
+functions the correspondence engine runs against the real `tokenize`.
+
+Proved for ALL inputs: a backtick-quoted body (any characters of any class except backtick and
+backslash) is ONE name token with the body verbatim and the span from the opening quote to the last
+body character; unquoted whitespace is a no-op after an operator / between tokens and otherwise only
+ends the pending token.
+
+FULL (unproved): `ws_insensitive` for whole strings (tokens of `u ++ ws ++ v` equal those of
+`u ++ v` up to spans at every safe gap) — missing: the lemma that token texts/kinds do not depend on
+the source indices threaded through the loop; `spans_ordered` (all spans ordered and disjoint) and
+`brace_verbatim`/`call_verbatim` — covered by the correspondence and the span/verbatim oracles only.
+The backslash exclusion in `backtick_verbatim` is not decoration: known finding C15-F1. -/
 namespace FormulaicVerif.Props.C15
+open FormulaicVerif FormulaicVerif.Model
+
+deriving instance DecidableEq for Except
+
+/-- C15.2  Backtick quoting is verbatim. -/
+theorem backtick_verbatim (body : List CharInfo) (bq eq : CharInfo)
+    (hb : ∀ ci ∈ body, Proofs.C15.QuoteSafe ci) (hne : body ≠ []) (h1 : bq.c = '`') (h2 : eq.c = '`') :
+    tokenize (bq :: body ++ [eq]) =
+      .ok [{ text := body.map (·.c), kind := some .name, start := some 0, stop := some body.length }] :=
+  Proofs.C15.backtick_verbatim body bq eq hb hne h1 h2
+
+/-- a name made only of operator characters, brackets, quotes and a space is one token -/
+example : tokenize ("`a+(b] '\"|~ {`".toList.map (fun c => { c := c, word := c.isAlpha, space := c == ' ' }))
+    = .ok [{ text := "a+(b] '\"|~ {".toList, kind := some .name, start := some 0, stop := some 12 }] := by decide +kernel
+
+/-- the excluded case is genuinely different (known finding C15-F1): a trailing backslash swallows the closing quote -/
+example : tokenize ("`a\\`".toList.map (fun c => { c := c, word := c.isAlpha, space := false }))
+    = .error .unterminated := by decide +kernel
+
+/-- C15.1a  Unquoted whitespace after an operator token, or where no token is pending, leaves the
+lexer state unchanged: adding or removing it there cannot change any token. -/
+theorem whitespace_noop (s : LexState) (i : Nat) (ci : CharInfo)
+    (hq : s.qc = []) (ht : s.take = 0) (hsp : ci.space = true)
+    (hc : ci.c ∉ ['%', '{', '`', '(', '[', ')', ']'])
+    (hp : s.tok.nonempty = false ∨ s.tok.kind = some .operator) :
+    lexStep s i ci = .ok s :=
+  Proofs.C15.whitespace_noop s i ci hq ht hsp hc hp
+
+/-- C15.1b  Unquoted whitespace after a name, value or Python token only ends that token. -/
+theorem whitespace_flushes (s : LexState) (i : Nat) (ci : CharInfo)
+    (hq : s.qc = []) (ht : s.take = 0) (hsp : ci.space = true)
+    (hc : ci.c ∉ ['%', '{', '`', '(', '[', ')', ']'])
+    (hp : s.tok.nonempty = true ∧ s.tok.kind ≠ some .operator) :
+    lexStep s i ci = .ok { s with out := s.tok :: s.out, tok := Tok.fresh } :=
+  Proofs.C15.whitespace_flushes s i ci hq ht hsp hc hp
+
+/-- whitespace is significant exactly where the property does not promise otherwise: between a name and `(` -/
+example :
+    (tokenize ("f(x)".toList.map (fun c => { c := c, word := c.isAlpha, space := c == ' ' }))).map (·.length) = .ok 1 ∧
+    (tokenize ("f (x)".toList.map (fun c => { c := c, word := c.isAlpha, space := c == ' ' }))).map (·.length) = .ok 4 := by
+  decide +kernel
+
 end FormulaicVerif.Props.C15
